@@ -697,9 +697,15 @@ func HashMapOfValueCopy(vm *Thread, target *HashMapOfValue, source *HashMapOfVal
 		if i == -1 {
 			panic("no room in target hashmap during copy")
 		}
+		old := target.Table[i]
+		if old.Key().IsUndefined() {
+			target.Elements++
+			if old.Value().IsUndefined() {
+				// increment OccupiedSlots only when the slot was completely empty
+				target.OccupiedSlots++
+			}
+		}
 		target.Table[i] = entry
-		target.OccupiedSlots++
-		target.Elements++
 	}
 
 	return value.Undefined
@@ -720,9 +726,15 @@ func HashMapOfValueCopyInterface(vm *Thread, target *HashMapOfValue, source Hash
 		if i == -1 {
 			panic("no room in target hashmap during copy")
 		}
+		old := target.Table[i]
+		if old.Key().IsUndefined() {
+			target.Elements++
+			if old.Value().IsUndefined() {
+				// increment OccupiedSlots only when the slot was completely empty
+				target.OccupiedSlots++
+			}
+		}
 		target.Table[i] = entry
-		target.OccupiedSlots++
-		target.Elements++
 	}
 
 	return value.Undefined
